@@ -1,4 +1,46 @@
-(* C18 *)
+(* C18 - with db_path, committed state survives exit, exceptions and kills.
+   Model (Steps.v): the disk holds exactly the effects of the engine calls made before the crash; `crash lk sch n`
+   = the state after the first n calls of a schedule. DuckDB's own guarantee (an autocommitted or committed call is
+   durable and atomic under SIGKILL) is the model's assumption, validated by the kill experiments of the check. *)
 From FS Require Import Sexp Steps StepsProofs.
-Example placeholder : True. Proof. exact I. Qed.
-Print Assumptions placeholder.
+
+(* For ALL sessions, schedules and crash points n <= n': every database, bootstrap, schema, table, every row (in its
+   place) and every recorded comment that is on disk at crash point n is on disk at crash point n' *)
+Theorem committed_survives : forall lk sch scripts n n', (n <= n')%nat -> eng_le (crash lk sch n scripts) (crash lk sch n' scripts).
+Proof. exact committed_survives_l. Qed.
+Print Assumptions committed_survives.
+
+Theorem insert_effect : forall e k v e', exec e (InsertRow k v) = (e', AOk) -> exists rows, klook (tbls e') k = Some (rows ++ [v]).
+Proof. exact insert_effect_l. Qed.
+Print Assumptions insert_effect.
+
+(* work that was never committed is absent: of all the calls of BEGIN; INSERT ...; [COMMIT] only the COMMIT changes the
+   durable state (for every state, table, row list and program point), and it adds all rows in one atomic call *)
+Theorem tx_only_commit_writes : forall e k vs b p c, fetch (TxInserts k vs b) p = Some c -> c <> CommitRows k vs -> fst (exec e c) = e.
+Proof. exact tx_only_commit_writes_l. Qed.
+Print Assumptions tx_only_commit_writes.
+
+Theorem tx_uncommitted_absent : forall e k vs p c, fetch (TxInserts k vs false) p = Some c -> fst (exec e c) = e.
+Proof. exact tx_uncommitted_absent_l. Qed.
+Print Assumptions tx_uncommitted_absent.
+
+Theorem tx_commit_all_at_once : forall e k vs rows, klook (tbls e) k = Some rows -> klook (tbls (fst (exec e (CommitRows k vs)))) k = Some (rows ++ vs).
+Proof. exact tx_commit_all_at_once_l. Qed.
+Print Assumptions tx_commit_all_at_once.
+
+(* "a statement interrupted by the kill is either fully there or not at all" is FALSE for statements carried out in
+   several calls: killed after 9 calls, CREATE TABLE ... COMMENT has left the table without its comment *)
+Theorem multi_step_atomic_refuted : exists n,
+  let h := [[Connect DB SC; CreateTable TK (Some (lit "c"))]] in
+  klook (tbls (crash false (repeat 0%nat 20) n h)) TK = Some [] /\ klook (cmts (crash false (repeat 0%nat 20) n h)) TK = None /\
+  klook (cmts (crash false (repeat 0%nat 20) 20 h)) TK = Some (lit "c").
+Proof. exact multi_step_atomic_refuted_l. Qed.
+Print Assumptions multi_step_atomic_refuted.
+
+Example crash_holds_somewhere :
+  let h := [[Connect DB SC; CreateTable TK (Some (lit "c")); Insert TK 1; TxInserts TK [2; 3] true; TxInserts TK [4; 5] false; Insert TK 6]] in
+  klook (tbls (crash false (repeat 0%nat 40) 14 h)) TK = Some [1] /\
+  klook (tbls (crash false (repeat 0%nat 40) 15 h)) TK = Some [1; 2; 3] /\
+  klook (tbls (crash false (repeat 0%nat 40) 40 h)) TK = Some [1; 2; 3; 6].
+Proof. exact crash_nonvacuous_l. Qed.
+Print Assumptions crash_holds_somewhere.
